@@ -215,6 +215,9 @@ class Session:
         self.caller_env = ckl.functions.Environment() if caller_env else None
         self.it, self.out = core.new_interpreter(secure=secure, legacy=False)
         self.moddir = moddir
+        # (relative to the directory the shard started in - where a well-behaved interpreter leaves the process)
+        os.chdir(START_CWD[0])
+        self.relmoddir = os.path.relpath(moddir, START_CWD[0])
         late = os.path.join(moddir, "late_mod.ckl")
         if os.path.exists(late):
             os.remove(late)
@@ -228,7 +231,7 @@ class Session:
             with open(os.path.join(self.moddir, "late_mod.ckl"), "w") as f:
                 f.write(LATE_SRC)
             return ("value", "host")
-        src = src.replace("{MODDIR}", self.moddir).replace("{RELMODDIR}", os.path.relpath(self.moddir))
+        src = src.replace("{MODDIR}", self.moddir).replace("{RELMODDIR}", self.relmoddir)
         if self.caller_env is not None:
             o = observe(lambda: self.it.interpret(src, "session", self.caller_env), 600000)
         else:
@@ -418,7 +421,11 @@ def plan(tier, seed):
     return specs
 
 
+START_CWD = [None]
+
+
 def run_shard(spec, ctx):
+    START_CWD[0] = os.getcwd()
     moddir = os.path.join(os.getcwd(), "mods")
     write_modules(moddir)
     write_modules(moddir + "_b", variant=1)
